@@ -271,6 +271,7 @@ type hSeen struct {
 	typ  string
 	data []byte
 	err  error
+	gen  int // which of the handlers installed one after the other was called
 }
 
 type viol struct{ kind, sig, detail string }
@@ -325,9 +326,13 @@ func runRaw(rc rawCase) (vs []viol, evals, nontrivial int) {
 
 	var seen []cbSeen
 	var pending []hSeen
-	handler := func(t string, d json.RawMessage, err error) {
-		pending = append(pending, hSeen{t, append([]byte(nil), d...), err})
+	wantGen := 0
+	handlerGen := func(gen int) eventbus.UpcastErrorHandler {
+		return func(t string, d json.RawMessage, err error) {
+			pending = append(pending, hSeen{t, append([]byte(nil), d...), err, gen})
+		}
 	}
+	handler := handlerGen(0)
 	mk := func(e edge) eventbus.UpcastFunc {
 		return func(data json.RawMessage) (json.RawMessage, string, error) {
 			if e.ID == rc.Fail {
@@ -456,6 +461,9 @@ func runRaw(rc rawCase) (vs []viol, evals, nontrivial int) {
 						"%s: handler calls %d", where, len(got.handlers))
 				} else if want == 1 {
 					hc := got.handlers[0]
+					if hc.gen != wantGen {
+						bad("handler-count", fs+": the call went to an upcast error handler that had been replaced, not to the one set last", "%s: handler generation %d, want %d", where, hc.gen, wantGen)
+					}
 					if hc.typ != x.FailType || !bytes.Equal(hc.data, x.FailData) {
 						what := "other arguments"
 						switch {
@@ -529,6 +537,42 @@ func runRaw(rc rawCase) (vs []viol, evals, nontrivial int) {
 	}
 	stage = ""
 	observe()
+	if rc.Incremental && len(vs) == 0 && len(rc.Edges) > 0 {
+		// registrations that are refused because they would close a cycle (the reverse of
+		// every registered edge) leave every chain in place - in particular the upcasters
+		// already registered for the type the refused registration started from
+		refused := 0
+		for _, e := range rc.Edges {
+			back := edge{From: e.To, To: e.From, ID: 900 + e.ID}
+			if err := eventbus.RegisterUpcastFunc(bus, back.From, back.To, mk(back)); err != nil {
+				refused++
+			} else {
+				// accepted although it closes a cycle: C16's subject; nothing more to say here
+				return vs, evals, nontrivial
+			}
+		}
+		if refused > 0 {
+			stage = " [replay after registrations that were refused (they would close a cycle)]"
+			observe()
+		}
+	}
+	if rc.Incremental && len(vs) == 0 && withHandler && rc.Variant != variants[3] {
+		// the handler is replaced at run time, after replays have been made: the next failure
+		// goes to the new one; then it is removed: nobody is called
+		wantGen = 1
+		bus.SetUpcastErrorHandler(handlerGen(1))
+		stage = " [replay after the error handler was replaced with SetUpcastErrorHandler]"
+		observe()
+		if len(vs) == 0 {
+			bus.SetUpcastErrorHandler(nil)
+			withHandler = false
+			stage = " [replay after the error handler was removed with SetUpcastErrorHandler(nil)]"
+			observe()
+			withHandler = true
+			wantGen = 2
+			bus.SetUpcastErrorHandler(handlerGen(2))
+		}
+	}
 	if rc.Incremental && len(vs) == 0 && len(rc.Edges) > 0 {
 		// clearing types that are only targets (or unknown) leaves every chain in place
 		cleared := 0
@@ -746,7 +790,7 @@ func runTyped(tc typedCase) (vs []viol, evals, nontrivial int) {
 
 	var pending []hSeen
 	handler := func(t string, d json.RawMessage, err error) {
-		pending = append(pending, hSeen{t, append([]byte(nil), d...), err})
+		pending = append(pending, hSeen{t, append([]byte(nil), d...), err, 0})
 	}
 	build := func() (*eventbus.EventBus, map[string][]refStep) {
 		var opts []eventbus.Option
